@@ -190,6 +190,16 @@ class Schedule:
         elif self.kind in ("centry", "gstate"):
             self.q = desc["q"]
             self.p = desc.get("p", 0.002)
+        elif self.kind == "single":
+            # preemption bound 1: thread `tid` runs first and is pre-empted exactly
+            # once, at its `at`-th interesting line (generated code, or a function
+            # touching module-level mutable state); the other threads then run to
+            # completion one after another, then `tid` resumes
+            self.s_tid = desc["tid"]
+            self.s_at = desc["at"]
+            self.s_what = desc.get("what", "gen")
+            self.s_count = 0
+            self.fired = False
 
     def init_threads(self, tids):
         if self.kind == "pct":
@@ -199,6 +209,8 @@ class Schedule:
             self.low = 9
 
     def first(self, runnable):
+        if self.kind == "single":
+            return self.s_tid if self.s_tid in runnable else min(runnable)
         if self.kind == "explicit":
             if self.qi < len(self.queue) and self.queue[self.qi][0] == 0:
                 t = self.queue[self.qi][1]
@@ -213,6 +225,15 @@ class Schedule:
     def decide(self, gstep, tid, runnable, kind, last_kind=0, gflag=False):
         """return tid to switch to, or None"""
         if len(runnable) < 2:
+            return None
+        if self.kind == "single":
+            if tid == self.s_tid and not self.fired:
+                hit = (kind == 0) if self.s_what == "gen" else gflag
+                if hit:
+                    self.s_count += 1
+                    if self.s_count == self.s_at:
+                        self.fired = True
+                        return min(t for t in runnable if t != tid)
             return None
         if self.kind == "gstate":
             # pre-empt inside functions that touch module-level mutable state
@@ -254,6 +275,9 @@ class Schedule:
         return None
 
     def on_finish(self, gstep, runnable):
+        if self.kind == "single":
+            others = [t for t in runnable if t != self.s_tid]
+            return min(others) if others else min(runnable)
         if self.kind == "explicit":
             q = self.queue
             while self.qi < len(q) and 0 <= q[self.qi][0] <= gstep:
